@@ -37,6 +37,8 @@ pub fn replay_obj_line(tally: &mut Tally, lineno: usize, line: &Value, scales: &
             // a single component is used both raw and wrapped: "wrapping a single timeline changes nothing" (C12)
             let mut objs: Vec<Obj> = vec![if tls.len() == 1 { Obj::Single(tls[0].clone()) } else { Obj::Merged(MergedTimeline::of(tls.clone())) }];
             let mut wrapped: Vec<Option<MergedTimeline<P4Timeline>>> = vec![if tls.len() == 1 { Some(MergedTimeline::from(tls[0].clone())) } else { None }];
+            // the latest start_with values of every object (a clone inherits them)
+            let mut ovs: Vec<Option<P4>> = vec![None];
             for (i, (op, ob)) in ops.iter().zip(obs.iter()).enumerate() {
                 let ctx = |class: &str, extra: Value| json!({"line": lineno, "scale": s, "step": i + 1, "class": class, "op": op, "detail": extra, "history": &ops[..=i], "ko": line["ko"]});
                 let oi = op["o"].as_u64().unwrap() as usize - 1;
@@ -66,6 +68,16 @@ pub fn replay_obj_line(tally: &mut Tally, lineno: usize, line: &Value, scales: &
                             let untouched = alts.as_array().unwrap().iter().any(|a| a[0] == "U");
                             if !untouched && other.get(pi + 1) != target.get(pi + 1) { t.miss(ctx("prior-contents", json!({"prop": pi + 1, "a": target.get(pi + 1), "b": other.get(pi + 1)}))); }
                         }
+                        // a timeline built afresh from the same description, given the same (latest) start_with and
+                        // never evaluated before, produces the same bits: nothing but (timeline, start_with, time) counts (C09)
+                        {
+                            let ftls: Vec<P4Timeline> = comps.iter().map(|c| build_tl(c, pd, &pmap, s)).collect();
+                            let mut fresh = if ftls.len() == 1 { Obj::Single(ftls.into_iter().next().unwrap()) } else { Obj::Merged(MergedTimeline::of(ftls)) };
+                            if let Some(v) = &ovs[oi] { fresh.start_with(v); }
+                            let mut tf = g.clone();
+                            fresh.update(&mut tf, time);
+                            if tf.bits() != target.bits() { t.miss(ctx("history-dependent", json!({"used_object": target.bits(), "fresh_object": tf.bits()}))); }
+                        }
                         if let Some(w) = &wrapped[oi] {
                             let mut tw = g.clone();
                             w.update(&mut tw, time);
@@ -78,8 +90,9 @@ pub fn replay_obj_line(tally: &mut Tally, lineno: usize, line: &Value, scales: &
                         for p in 1..=4 { v.set(p, vals[p - 1].as_i64().unwrap() as f64); }
                         objs[oi].start_with(&v);
                         if let Some(w) = wrapped[oi].as_mut() { w.start_with(&v); }
+                        ovs[oi] = Some(v);
                     }
-                    "clone" => { let c = objs[oi].clone(); objs.push(c); let w = wrapped[oi].clone(); wrapped.push(w); }
+                    "clone" => { let c = objs[oi].clone(); objs.push(c); let w = wrapped[oi].clone(); wrapped.push(w); let o = ovs[oi].clone(); ovs.push(o); }
                     o => panic!("op {o}"),
                 }
                 // metadata after every operation (C09: start_with leaves timing alone; C12: aggregates)
